@@ -1,5 +1,178 @@
 import FcpptModel.Prelude.Proto
-/-! Driver for C13 — placeholder until the property's model is built. -/
+import FcpptModel.Spec.C13
+/-!
+Driver for C13.  `T` is `i` (`int`) or `u` (`unsigned`), `n` ∈ {1,2,3}, vectors are `x,y,z`.
+
+* `pair T n amin amax bmin bmax lo hi` — observations on the two boxes A, B: `intersects`, `contains` both ways,
+      `intersection`, `extend_bounding_box(A,B)`, `== != <` both ways, `distance` both ways, and a digest over all lattice points
+      p ∈ [lo,hi]^n of (p∈A, p∈B, p∈A∩B, p∈bbox)
+* `pt T n amin amax bmin bmax p`       — the four memberships of one point
+* `pairs T n amin amax lo hi clo chi`  — digest of the `pair` lines for every box B with both corners in [clo,chi]^n
+* `unary T n min max lo hi`            — `size pos max left… corner_points center null`, constructor / `init_max` / `init_dim`
+      round trips, digest over v ∈ [lo,hi]^n of `shrink`/`stretch_absolute`, digest over p ∈ [lo,hi]^n of
+      `extend_bounding_box(box, p)` and `contains_point`
+* `shr T n min max v`                  — `shrink`, `stretch_absolute`, and `stretch_absolute(shrink(b,v),v)`
+* `extp T n min max p`                 — `extend_bounding_box(box, p)`, `contains_point(box, p)`
+* `idist T a1 a2 b1 b2`                — `interval_distance((a1,a2),(b1,b2))`
+-/
 namespace Fcppt.C13.Drv
-def main : IO Unit := Fcppt.Proto.run (fun _ => "not-built")
+open Fcppt.Proto
+
+def parseTy : String → Option Ty
+  | "i" => some Ty.int
+  | "u" => some Ty.uint
+  | _ => none
+
+def parseDim (s : String) : Option Nat :=
+  match s.toNat? with
+  | some n => if 1 ≤ n ∧ n ≤ 3 then some n else none
+  | none => none
+
+def inTy (t : Ty) (x : Int) : Bool := decide (t.Rep x)
+
+def parseScalar (t : Ty) (s : String) : Option Int :=
+  match s.toInt? with
+  | some x => if inTy t x then some x else none
+  | none => none
+
+def mkVec (n : Nat) (l : List Int) : Option (Vec n) :=
+  if h : l.length = n then some ⟨l.toArray, by simp [h]⟩ else none
+
+def parseVec (t : Ty) (n : Nat) (s : String) : Option (Vec n) :=
+  match parseIntList s with
+  | some l => if l.all (inTy t) then mkVec n l else none
+  | none => none
+
+def showVec {n : Nat} (v : Vec n) : String := intList v.toList
+def showBox {n : Nat} (b : Box n) : String := showVec b.min ++ "/" ++ showVec b.max
+def showM {α : Type} (f : α → String) : M α → String
+  | .ok a => f a
+  | .error e => e.name
+
+/-- all points of [lo,hi]^n, coordinate 0 outermost -/
+def cubeL (lo hi : Int) : Nat → List (List Int)
+  | 0 => [[]]
+  | n + 1 =>
+    let xs := (List.range (hi - lo + 1).toNat).map (fun (k : Nat) => lo + Int.ofNat k)
+    let rest := cubeL lo hi n
+    xs.flatMap fun x => rest.map fun r => x :: r
+
+def cube (lo hi : Int) (n : Nat) : List (Vec n) := (cubeL lo hi n).filterMap (mkVec n)
+
+def mix (h : UInt64) (x : UInt64) : UInt64 := (h ^^^ x) * 1099511628211
+def u64 (x : Int) : UInt64 := UInt64.ofNat (x % 18446744073709551616).toNat
+def mixVec {n : Nat} (h : UInt64) (v : Vec n) : UInt64 := v.toList.foldl (fun h x => mix h (u64 x)) h
+def mixBox {n : Nat} (h : UInt64) (b : Box n) : UInt64 := mixVec (mixVec h b.min) b.max
+def mixMBox {n : Nat} (h : UInt64) : M (Box n) → UInt64
+  | .ok b => mixBox h b
+  | .error _ => mix h 0xDEAD
+
+def bit (b : Bool) (k : UInt64) : UInt64 := if b then k else 0
+
+def ptNibble {n : Nat} (a b e : Box n) (i : M (Box n)) (p : Vec n) : UInt64 :=
+  bit (containsPoint a p) 1 ||| bit (containsPoint b p) 2 |||
+  (match i with | .ok ib => bit (containsPoint ib p) 4 | .error _ => 16) ||| bit (containsPoint e p) 8
+
+def pairLine (t : Ty) {n : Nat} (a b : Box n) (lat : List (Vec n)) : String :=
+  let i := intersection t a b
+  let e := extendBox a b
+  let h := lat.foldl (fun h p => mix h (ptNibble a b e i p)) fnvInit
+  s!"int={b01 (intersects a b)}{b01 (intersects b a)} cont={b01 (contains a b)}{b01 (contains b a)} isect={showM showBox i} ext={showBox e} " ++
+  s!"eq={showM b01 (eq t a b)} ne={showM b01 (ne t a b)} lt={showM b01 (lt t a b)} gt={showM b01 (lt t b a)} " ++
+  s!"dist={showM showVec (distance t a b)} rdist={showM showVec (distance t b a)} pts={hex64 h}"
+
+def ptLine (t : Ty) {n : Nat} (a b : Box n) (p : Vec n) : String :=
+  let i := intersection t a b
+  let e := extendBox a b
+  s!"a={b01 (containsPoint a p)} b={b01 (containsPoint b p)} i={showM (fun ib => b01 (containsPoint ib p)) i} e={b01 (containsPoint e p)}"
+
+def pairsDigest (t : Ty) {n : Nat} (a : Box n) (lo hi clo chi : Int) : String :=
+  let lat := cube lo hi n
+  let cs := cube clo chi n
+  let h := cs.foldl (fun h bmin => cs.foldl (fun h bmax => fnv h (pairLine t a ⟨bmin, bmax⟩ lat)) h) fnvInit
+  "D " ++ hex64 h
+
+def shrLine (t : Ty) {n : Nat} (b : Box n) (v : Vec n) : String :=
+  let s := shrink t b v
+  let back := match s with | .ok sb => stretchAbsolute t sb v | .error e => .error e
+  s!"shrink={showM showBox s} stretch={showM showBox (stretchAbsolute t b v)} back={showM showBox back}"
+
+def extpLine {n : Nat} (b : Box n) (p : Vec n) : String :=
+  s!"ext={showBox (extendPoint b p)} in={b01 (containsPoint b p)}"
+
+def sides {n : Nat} (b : Box n) : String :=
+  (if h : 0 < n then s!" l={left b h} r={right b h}" else "") ++
+  (if h : 1 < n then s!" t={top b h} b={bottom b h}" else "") ++
+  (if h : 2 < n then s!" f={front b h} k={back b h}" else "")
+
+def unaryLine (t : Ty) {n : Nat} (b : Box n) (lo hi : Int) : String :=
+  let lat := cube lo hi n
+  let sz := size t b
+  -- round trips: (pos,size) constructor, init_max, init_dim reproduce the box
+  let rt1 := match sz with | .ok s => mkPosSize t b.min s | .error e => .error e
+  let rt2 : Box n := initMax fun i => (b.min[i], b.max[i])
+  let rt3 := match sz with | .ok s => initDim t (n := n) (fun i => (b.min[i], s[i])) | .error e => .error e
+  let hs := lat.foldl (fun h v => mixMBox (mixMBox h (shrink t b v)) (stretchAbsolute t b v)) fnvInit
+  let hp := lat.foldl (fun h p => mix (mixBox h (extendPoint b p)) (bit (containsPoint b p) 1)) fnvInit
+  s!"size={showM showVec sz} pos={showVec b.min} max={showVec b.max}{sides b} corners={showM (fun l => ";".intercalate (l.map showVec)) (cornerPoints t b)} " ++
+  s!"center={showM showVec (center t b)} null={showM showBox (null t n)} rt={showM showBox rt1}|{showBox rt2}|{showM showBox rt3} " ++
+  s!"self={showM b01 (eq t b b)}{showM b01 (ne t b b)}{showM b01 (lt t b b)}{b01 (contains b b)}{b01 (intersects b b)} sh={hex64 hs} xp={hex64 hp}"
+
+def handle (toks : List String) : String :=
+  match toks with
+  | ["pair", t, n, amin, amax, bmin, bmax, lo, hi] =>
+    match parseTy t, parseDim n, lo.toInt?, hi.toInt? with
+    | some t, some n, some lo, some hi =>
+      match parseVec t n amin, parseVec t n amax, parseVec t n bmin, parseVec t n bmax with
+      | some amin, some amax, some bmin, some bmax =>
+        if inTy t lo && inTy t hi then pairLine t ⟨amin, amax⟩ ⟨bmin, bmax⟩ (cube lo hi n) else "bad-op"
+      | _, _, _, _ => "bad-op"
+    | _, _, _, _ => "bad-op"
+  | ["pt", t, n, amin, amax, bmin, bmax, p] =>
+    match parseTy t, parseDim n with
+    | some t, some n =>
+      match parseVec t n amin, parseVec t n amax, parseVec t n bmin, parseVec t n bmax, parseVec t n p with
+      | some amin, some amax, some bmin, some bmax, some p => ptLine t ⟨amin, amax⟩ ⟨bmin, bmax⟩ p
+      | _, _, _, _, _ => "bad-op"
+    | _, _ => "bad-op"
+  | ["pairs", t, n, amin, amax, lo, hi, clo, chi] =>
+    match parseTy t, parseDim n, lo.toInt?, hi.toInt?, clo.toInt?, chi.toInt? with
+    | some t, some n, some lo, some hi, some clo, some chi =>
+      match parseVec t n amin, parseVec t n amax with
+      | some amin, some amax =>
+        if inTy t lo && inTy t hi && inTy t clo && inTy t chi then pairsDigest t ⟨amin, amax⟩ lo hi clo chi else "bad-op"
+      | _, _ => "bad-op"
+    | _, _, _, _, _, _ => "bad-op"
+  | ["unary", t, n, mn, mx, lo, hi] =>
+    match parseTy t, parseDim n, lo.toInt?, hi.toInt? with
+    | some t, some n, some lo, some hi =>
+      match parseVec t n mn, parseVec t n mx with
+      | some mn, some mx => if inTy t lo && inTy t hi then unaryLine t ⟨mn, mx⟩ lo hi else "bad-op"
+      | _, _ => "bad-op"
+    | _, _, _, _ => "bad-op"
+  | ["shr", t, n, mn, mx, v] =>
+    match parseTy t, parseDim n with
+    | some t, some n =>
+      match parseVec t n mn, parseVec t n mx, parseVec t n v with
+      | some mn, some mx, some v => shrLine t ⟨mn, mx⟩ v
+      | _, _, _ => "bad-op"
+    | _, _ => "bad-op"
+  | ["extp", t, n, mn, mx, p] =>
+    match parseTy t, parseDim n with
+    | some t, some n =>
+      match parseVec t n mn, parseVec t n mx, parseVec t n p with
+      | some mn, some mx, some p => extpLine (⟨mn, mx⟩ : Box n) p
+      | _, _, _ => "bad-op"
+    | _, _ => "bad-op"
+  | ["idist", t, a1, a2, b1, b2] =>
+    match parseTy t with
+    | some t =>
+      match parseScalar t a1, parseScalar t a2, parseScalar t b1, parseScalar t b2 with
+      | some a1, some a2, some b1, some b2 => showM toString (intervalDistance t (a1, a2) (b1, b2))
+      | _, _, _, _ => "bad-op"
+    | none => "bad-op"
+  | _ => "bad-op"
+
+def main : IO Unit := Proto.run handle
+
 end Fcppt.C13.Drv
